@@ -1,8 +1,183 @@
-(* C02 — statements only; see GCS/*Proofs.v *)
+(* C02 — GCS: what is uploaded is what is served, until overwritten or deleted.
+   Only statements here; proofs are in GCS/UploadProofs.v (and GCS/HandlerProofs.v). *)
 From Coq Require Import List NArith ZArith Bool.
-From Emu.GCS Require Import Model CondsSpec CondsProofs HandlerProofs.
+Import ListNotations.
+From Emu.Common Require Import Bytes Str StrProofs.
+From Emu.GCS Require Import Model CondsSpec CondsProofs HandlerProofs UploadProofs.
+Local Open Scope Z_scope.
+
+(* ---- resumable uploads ---- *)
+
+(* For every payload P and every session of PUTs consistent with P (chunks P[lo,lo+len) with
+   total "*" or |P| at ANY offset, re-sends and overlaps included; status/finalise requests
+   with an empty body), starting from any prefix of P: after every step the bytes held are a
+   prefix of P, and whenever a step completes the upload (finish_upload is called, flag true)
+   the bytes handed over are exactly P.  No bound on P; the empty payload is included. *)
+Theorem C02_resumable_assembles_payload : forall P steps held,
+  is_prefix held P ->
+  Forall (fun st => consistent P (fst st) (snd st)) steps ->
+  Forall (fun hf => is_prefix (fst hf) P /\ (snd hf = true -> fst hf = P)) (session held steps).
+Proof. exact resumable_assembles_payload. Qed.
+Print Assumptions C02_resumable_assembles_payload.
+
+(* progress (lengths in the int64 domain): a consistent chunk at an offset within the bytes
+   held is accepted and leaves exactly P[0, lo+len) *)
+Theorem C02_resume_accepts_chunk : forall P held lo len T,
+  Z.of_nat (length P) <= int64_max ->
+  is_prefix held P -> (lo <= length held)%nat -> (lo + len <= length P)%nat ->
+  resume_apply held (mkBR (Z.of_nat lo) (Z.of_nat lo + Z.of_nat len - 1) T) (firstn len (skipn lo P))
+  = Some (firstn (lo + len) P).
+Proof. exact resume_apply_accepts_chunk. Qed.
+Print Assumptions C02_resume_accepts_chunk.
+
+Theorem C02_resume_accepts_status : forall held hi T,
+  resume_apply held (mkBR (-1) hi T) [] = Some held.
+Proof. exact resume_apply_accepts_status. Qed.
+Print Assumptions C02_resume_accepts_status.
+
+(* the same through [handle]: one PUT on a pending upload either completes it, storing exactly
+   P with a fresh generation, or changes no object and leaves a prefix of P pending *)
+Theorem C02_resumable_put_step : forall P id s u st,
+  state_ok s -> alookup id (s_uploads s) = Some u -> is_prefix (up_data u) P ->
+  step_consistent P st ->
+  let s' := fst (handle s (put_req id st)) in
+  let rsp := snd (handle s (put_req id st)) in
+  (r_status rsp = 200 /\ alookup id (s_uploads s') = None /\ stored_as s' u P
+   /\ find_obj s' (up_bucket u) (up_name u)
+      = Some (mkObj P (up_ctype u) (s_clock s + 1) 1 true (merge_meta [] (up_meta u))))
+  \/ (r_status rsp <> 200 /\ s_buckets s' = s_buckets s /\ s_clock s' = s_clock s
+      /\ exists u', alookup id (s_uploads s') = Some u' /\ same_target u' u /\ is_prefix (up_data u') P).
+Proof. exact resumable_put_step. Qed.
+Print Assumptions C02_resumable_put_step.
+
+(* a whole session through [run] *)
+Theorem C02_resumable_session_end_to_end : forall P id steps s u,
+  state_ok s -> alookup id (s_uploads s) = Some u -> is_prefix (up_data u) P ->
+  Forall (step_consistent P) steps ->
+  let s' := fst (run s (map (put_req id) steps)) in
+  let rsps := snd (run s (map (put_req id) steps)) in
+  if existsb (fun r => Z.eqb (r_status r) 200) rsps
+  then stored_as s' u P
+  else s_buckets s' = s_buckets s
+       /\ exists u', alookup id (s_uploads s') = Some u' /\ same_target u' u /\ is_prefix (up_data u') P.
+Proof. exact resumable_session_end_to_end. Qed.
+Print Assumptions C02_resumable_session_end_to_end.
+
+(* ---- Content-Range text ---- *)
+
+Theorem C02_parse_byte_range_rejects_non_bytes : forall cr,
+  has_prefix cr s_bytes_sp = false -> parse_byte_range cr = None.
+Proof. exact parse_byte_range_rejects_non_bytes. Qed.
+Print Assumptions C02_parse_byte_range_rejects_non_bytes.
+
+(* "bytes */T" *)
+Theorem C02_parse_byte_range_star : forall t, ~ In 47%N t ->
+  parse_byte_range (s_bytes_sp ++ s_star ++ s_slash ++ t)
+  = if beqb t s_star then Some (mkBR (-1) (-1) (-1))
+    else match parse_int t with Some sz => Some (mkBR (-1) (-1) sz) | None => None end.
+Proof. exact parse_byte_range_star. Qed.
+Print Assumptions C02_parse_byte_range_star.
+
+(* "bytes A-B/T" with A, B digit strings, T a digit string or "*" *)
+Theorem C02_parse_byte_range_digits : forall a b t,
+  forallb is_digit a = true -> forallb is_digit b = true ->
+  forallb is_digit t = true \/ t = s_star ->
+  parse_byte_range (s_bytes_sp ++ a ++ s_dash ++ b ++ s_slash ++ t)
+  = match parse_int a, parse_int b with
+    | Some lo, Some hi =>
+        if beqb t s_star then Some (mkBR lo hi (-1))
+        else match parse_int t with Some sz => Some (mkBR lo hi sz) | None => None end
+    | _, _ => None
+    end.
+Proof. exact parse_byte_range_digits. Qed.
+Print Assumptions C02_parse_byte_range_digits.
+
+(* ---- upload, then read ---- *)
+
+Theorem C02_upload_then_get : forall s b n ctype data cp,
+  r_status (snd (handle s (RUploadMedia b n ctype data cp))) = 200 ->
+  let s' := fst (handle s (RUploadMedia b n ctype data cp)) in
+  handle s' (RGetMedia b n) = (s', mkResp 200 (BMedia data ctype (s_clock s + 1) 1))
+  /\ exists v, handle s' (RGetMeta b n) = (s', mkResp 200 (BMeta v))
+       /\ v_bucket v = b /\ v_name v = n /\ v_size v = Z.of_nat (length data) /\ v_ctype v = ctype
+       /\ v_md5 v = 1%N /\ v_metagen v = 1 /\ v_gen v = s_clock s + 1 /\ v_meta v = [].
+Proof. exact upload_then_get. Qed.
+Print Assumptions C02_upload_then_get.
+
+Theorem C02_multipart_upload_then_get : forall s b m data cp,
+  r_status (snd (handle s (RUploadMultipart b m data cp))) = 200 ->
+  let s' := fst (handle s (RUploadMultipart b m data cp)) in
+  handle s' (RGetMedia b (um_name m)) = (s', mkResp 200 (BMedia data (um_ctype m) (s_clock s + 1) 1))
+  /\ exists v, handle s' (RGetMeta b (um_name m)) = (s', mkResp 200 (BMeta v))
+       /\ v_size v = Z.of_nat (length data) /\ v_ctype v = um_ctype m
+       /\ v_md5 v = 1%N /\ v_metagen v = 1 /\ v_gen v = s_clock s + 1
+       /\ v_meta v = merge_meta [] (um_meta m).
+Proof. exact multipart_upload_then_get. Qed.
+Print Assumptions C02_multipart_upload_then_get.
+
+(* a wrong or malformed declared md5: 400 and the previous state, whatever it held *)
+Theorem C02_bad_md5_keeps_previous : forall s b m data cp,
+  um_md5 m = 2%N \/ um_md5 m = 3%N ->
+  handle s (RUploadMultipart b m data cp) = (s, err 400).
+Proof. exact bad_md5_keeps_previous. Qed.
+Print Assumptions C02_bad_md5_keeps_previous.
+
+(* ---- until overwritten or deleted ---- *)
+
+Theorem C02_other_objects_untouched : forall s r b' n',
+  ~ In (b', n') (targets s r) -> bucket_target r <> Some b' ->
+  find_obj (fst (handle s r)) b' n' = find_obj s b' n'.
+Proof. exact other_objects_untouched. Qed.
+Print Assumptions C02_other_objects_untouched.
+
+Theorem C02_served_until_overwritten : forall rs s b n,
+  untouched_run s rs b n -> find_obj (fst (run s rs)) b n = find_obj s b n.
+Proof. exact served_until_overwritten. Qed.
+Print Assumptions C02_served_until_overwritten.
+
+Theorem C02_state_ok_init : state_ok init_state.
+Proof. exact state_ok_init. Qed.
+Print Assumptions C02_state_ok_init.
+
+Theorem C02_state_ok_preserved : forall s r, state_ok s -> state_ok (fst (handle s r)).
+Proof. exact state_ok_preserved. Qed.
+Print Assumptions C02_state_ok_preserved.
+
+Theorem C02_state_ok_run : forall rs s, state_ok s -> state_ok (fst (run s rs)).
+Proof. exact state_ok_run. Qed.
+Print Assumptions C02_state_ok_run.
+
+Theorem C02_delete_makes_absent : forall s b n cp,
+  state_ok s -> r_status (snd (handle s (RDelete b n cp))) = 204 ->
+  find_obj (fst (handle s (RDelete b n cp))) b n = None.
+Proof. exact delete_makes_absent. Qed.
+Print Assumptions C02_delete_makes_absent.
+
+Theorem C02_delete_then_get_404 : forall s b n cp,
+  state_ok s -> r_status (snd (handle s (RDelete b n cp))) = 204 ->
+  let s' := fst (handle s (RDelete b n cp)) in
+  handle s' (RGetMedia b n) = (s', err 404) /\ handle s' (RGetMeta b n) = (s', err 404).
+Proof. exact delete_then_get_404. Qed.
+Print Assumptions C02_delete_then_get_404.
+
+(* a request answered with an error changes no object (shared with C04) *)
 Theorem C02_failed_request_frame : forall s r,
   let '(s', rsp) := handle s r in
   is_success (r_status rsp) = false -> s_buckets s' = s_buckets s /\ s_clock s' = s_clock s.
 Proof. exact failed_request_frame. Qed.
 Print Assumptions C02_failed_request_frame.
+
+(* non-vacuity: see session_example, resumable_end_to_end_example and upload_get_delete_example
+   in GCS/UploadProofs.v (concrete sessions and a concrete two-object state meeting the
+   hypotheses above); re-exported here *)
+Example C02_nonvacuous_session :
+  let P := [104; 101; 108; 108; 111]%N in
+  session [] [ (mkBR 0 2 (-1), [104; 101; 108]%N);
+               (mkBR (-1) (-1) (-1), []);
+               (mkBR 2 4 5, [108; 108; 111]%N) ]
+  = [ ([104; 101; 108]%N, false); ([104; 101; 108]%N, false); (P, true) ]
+  /\ Forall (fun st => consistent P (fst st) (snd st))
+       [ (mkBR 0 2 (-1), [104; 101; 108]%N); (mkBR (-1) (-1) (-1), []); (mkBR 2 4 5, [108; 108; 111]%N) ]
+  /\ session [] [ (mkBR (-1) (-1) 0, []) ] = [ ([], true) ]
+  /\ consistent [] (mkBR (-1) (-1) 0) [].
+Proof. exact session_example. Qed.
